@@ -470,9 +470,35 @@ func genXRBlock(r *rng, wild bool) rtcp.ReportBlock {
 func genXR(r *rng, wild bool) *rtcp.ExtendedReport {
 	x := &rtcp.ExtendedReport{SenderSSRC: r.u32()}
 	for i, n := 0, r.length(5); i < n; i++ {
-		x.Reports = append(x.Reports, genXRBlock(r, wild && r.chance(1, 3)))
+		b := genXRBlock(r, wild && r.chance(1, 3))
+		if r.chance(1, 4) {
+			junkXRHeader(r, b)
+		}
+		x.Reports = append(x.Reports, b)
 	}
 	return x
+}
+
+// junkXRHeader: the block header of the known block kinds is filled in by Marshal (documented); whatever a value
+// carries there beforehand (a block that was marshalled or decoded before and edited since) must not reach the wire.
+func junkXRHeader(r *rng, b rtcp.ReportBlock) {
+	h := rtcp.XRHeader{BlockType: rtcp.BlockTypeType(r.u8()), TypeSpecific: rtcp.TypeSpecificField(r.u8()), BlockLength: r.u16()}
+	switch x := b.(type) {
+	case *rtcp.LossRLEReportBlock:
+		x.XRHeader = h
+	case *rtcp.DuplicateRLEReportBlock:
+		x.XRHeader = h
+	case *rtcp.PacketReceiptTimesReportBlock:
+		x.XRHeader = h
+	case *rtcp.ReceiverReferenceTimeReportBlock:
+		x.XRHeader = h
+	case *rtcp.DLRRReportBlock:
+		x.XRHeader = h
+	case *rtcp.StatisticsSummaryReportBlock:
+		x.XRHeader = h
+	case *rtcp.VoIPMetricsReportBlock:
+		x.XRHeader = h
+	}
 }
 
 // ---- Raw: a well-framed frame with an unregistered (PT, FMT) ----
